@@ -271,7 +271,7 @@ def templates():
     @t("is_supergraph")
     def _(g, pm):
         p = g.randint(1, pm)
-        A = dag(g, p, weighted=False, dtype=int)
+        A = dag(g, p, weighted=False, dtype=int) if g.random() < 0.75 else dag(g, p, weighted=True, dtype=float)
         B = A.copy()
         for _ in range(g.randint(0, 2)):
             B[node(g, p), node(g, p)] = g.choice([0, 1])
@@ -280,8 +280,9 @@ def templates():
     for nm in ("has_subgraph", "has_supergraph"):
         def f(g, pm, nm=nm):
             p = g.randint(1, 4)
-            L1 = [dag(g, p, weighted=False, dtype=int) for _ in range(g.randint(1, 3))]
-            L2 = [dag(g, p, weighted=False, dtype=int) for _ in range(g.randint(1, 3))]
+            wt = g.random() < 0.25                  # weighted graphs are graphs too
+            L1 = [dag(g, p, weighted=wt, dtype=(float if wt else int)) for _ in range(g.randint(1, 3))]
+            L2 = [dag(g, p, weighted=wt, dtype=(float if wt else int)) for _ in range(g.randint(1, 3))]
             if g.random() < 0.5:
                 L2.append(L1[0].copy())
             return [L1, L2], {}
@@ -422,13 +423,14 @@ def templates():
     # generators (no caller storage involved; determinism and non-aliasing of repeated results)
     @t("gen.dag_avg_deg")
     def _(g, pm):
-        p = g.randint(2, 8)
+        p = g.randint(2, 8) if g.random() < 0.93 else g.choice([300, 520])
         return [p, G.r2(g, 0.5, min(3.0, p - 1)), 0.5, 1.5], \
             {"return_ordering": g.random() < 0.5, "random_state": g.choice([0, 1, 42])}
 
     @t("gen.dag_full")
     def _(g, pm):
-        return [g.randint(1, 7), 0.5, 1.5], {"return_ordering": g.random() < 0.5, "random_state": g.choice([0, 1, 42])}
+        p = g.randint(1, 7) if g.random() < 0.93 else g.choice([300, 520])      # far beyond the usual sizes
+        return [p, 0.5, 1.5], {"return_ordering": g.random() < 0.5, "random_state": g.choice([0, 1, 42])}
 
     @t("gen.intervention_targets")
     def _(g, pm):
